@@ -1,6 +1,6 @@
-SPECIFICATION Spec
+SPECIFICATION SpecW
 CONSTANTS
-  Repos = {"r1", "r2"}
+  Repos = {"r1"}
   Tags = {"t1"}
   Cids = {"b0", "b1", "b2", "img", "idx", "idy", "sub", "bad"}
   BlobIds = {"b1", "b2"}
